@@ -235,6 +235,6 @@ def _share_live_list_maintenance(ctx):
     sub = util.fresh_ctx(ctx)
     C10.check(sub)
     for o in sub.obs:
-        if o["rule"] == "R10.2" and ("resyncs-live-list" in o["key"]):
-            ctx.ob("R17.7", o["key"].split("|", 1)[1] if o["key"].startswith("R10.2|") else o["key"], o["ok"], o["site"], o["detail"], o["nontrivial"])
+        if (o["rule"] == "R10.2" and ("resyncs-live-list" in o["key"])) or o["rule"] == "R10.7":
+            ctx.ob("R17.7", o["key"].split("|", 1)[1] if o["key"].startswith(("R10.2|", "R10.7|")) else o["key"], o["ok"], o["site"], o["detail"], o["nontrivial"])
     ctx.floor("R17.7", 2)
